@@ -193,6 +193,25 @@ pub fn payload_from_json(v: &Value) -> Vec<u8> {
             }
             t
         }
+        "utf8trunc" => {
+            // legal CRLF text in which one multi-octet character lost its last octet, followed by more text
+            let mut t = gen_utf8_crlf(&mut p, len);
+            let starts: Vec<usize> = (0..t.len()).filter(|i| t[*i] >= 0xC0).collect();
+            if starts.is_empty() {
+                t.extend_from_slice(&[0xE2, 0x82]);
+                t.extend_from_slice(b"tail");
+            } else {
+                let at = *p.pick(&starts);
+                let n = if t[at] >= 0xF0 { 4 } else if t[at] >= 0xE0 { 3 } else { 2 };
+                if at + n <= t.len() {
+                    t.remove(at + n - 1);
+                }
+                if at + n - 1 >= t.len() {
+                    t.extend_from_slice(b"tail");
+                }
+            }
+            t
+        }
         "crlfmix" => {
             let alphabet = [b'\r', b'\n', b'x', b'\r', b'\n', b' ', b'\t', b'-', b'a'];
             (0..len).map(|_| *p.pick(&alphabet)).collect()
